@@ -7,7 +7,7 @@ from typing import Dict, List, Optional, Set
 from ..callgraph import all_nodes, get_cg
 from ..core import Ctx
 from ..effects import Effect, effects_in, inventory
-from ..flow import arg_of, call_name, get_flow
+from ..flow import arg_of, bound_args, call_name, get_flow
 from ..project import AnalysisError, FuncInfo, ancestors, dotted, parent, src
 
 LEVEL = 'other'
@@ -182,7 +182,7 @@ def r4(ctx: Ctx) -> None:
         g = cfl.cfg.guard_literals(cfl.stmt_of(c))
         ok = ('os.path.exists(old_csv)', True) in g and ('os.path.exists(new_rules)', False) in g and ('has_rules', True) in g
         ctx.check(ok, 'C20.R4', ci, 'init-migration', 'init migrates only when the CSV exists (with rules) and merchants.rules does not', f'init migration under {sorted(g)}', c)
-        kw = {k.arg: src(k.value) for k in c.keywords}
+        kw = {k: src(v) for k, v in bound_args(proj, ci, c).items()}
         ctx.check(kw.get('backup') == 'True', 'C20.R4', ci, 'init-migration-backup', 'with backup=True', f'init migration called with {kw}', c)
     # old_csv / new_rules are the files in the target config dir
     for var, name in (('old_csv', 'merchant_categories.csv'), ('new_rules', 'merchants.rules')):
